@@ -569,6 +569,20 @@ class Num:
 # ---------------------------------------------------------------------------
 # loops
 
+def root_module(path):
+    """module path of a function / method path (`<T as codes::gamma::X>::f` -> codes::gamma; `codes::gamma::f` -> codes::gamma)"""
+    m = re.match(r"<.* as ([\w:]+)::\w+(<.*>)?>::\w+$", path)
+    if m:
+        return m.group(1)
+    p = re.sub(r"::<[^>]*>", "", path)
+    parts = p.split("::")
+    # drop the function name and, for inherent methods, the type name (capitalised)
+    parts = parts[:-1]
+    while parts and parts[-1][:1].isupper():
+        parts = parts[:-1]
+    return "::".join(parts)
+
+
 def dominators(body):
     blocks = sorted(body.reachable(0))
     dom = {b: set(blocks) for b in blocks}
@@ -810,7 +824,14 @@ class NumWalker(Walker):
         if not nm.startswith(("impls::", "codes::")) or nm in self.contracts:
             return False
         bl = self.facts.by_path.get(nm, [])
-        return len(bl) == 1 and bl[0]["kind"] in ("Fn", "AssocFn") and str(bl[0].get("vis") or "").startswith("Restricted") and not bl[0].get("impl_trait")
+        if not (len(bl) == 1 and bl[0]["kind"] in ("Fn", "AssocFn") and not bl[0].get("impl_trait") and bl[0].get("blocks")):
+            return False
+        if str(bl[0].get("vis") or "").startswith("Restricted"):
+            return True
+        # a helper that was made `pub` is still a helper: a free function of the same module as the function under analysis, without
+        # a contract of its own, is walked in context as well
+        rf = getattr(self, "root_file", None) or mir.span_file(self.body.b.get("span") if hasattr(self.body, "b") else None)
+        return bl[0]["kind"] == "Fn" and rf is not None and mir.span_file(bl[0].get("span")) == rf
 
     inline = None
 
@@ -822,6 +843,7 @@ class NumWalker(Walker):
         w = NumWalker(cb, self.cfg, self.facts, self.contracts, None, num=num2, depth=self.depth + 1, max_paths=self.max_paths)
         w.inline = self.inline
         w.gen_map = mir.generic_map(self, callee)
+        w.root_file = getattr(self, "root_file", None) or mir.span_file(self.body.b.get("span") if hasattr(self.body, "b") else None)
         w.region, w.region_head = None, None
         s2 = self.fork(st)
         caller_env = s2["env"]
